@@ -42,3 +42,51 @@ Definition exit_code (fail_level : str) (res : lint_result) : N :=
 (* "a violation of that level was found" *)
 Definition has_level (lvl : str) (r : report) : Prop :=
   exists v, In v (r_violations r) /\ v_level v = lvl.
+
+(* ---------------------------------------------------------------- delivery of the report
+   lint() in cmd/lint.go: the output channel is opened first (stdout, or --output-file through
+   getWriterForOutputFile), then the linter runs, then the reporter writes to the channel;
+   `return result, rep.Publish(ctx, result)` hands the write error back together with the report,
+   and RunE looks at the error first.  The outcome of the system calls is an oracle. *)
+Inductive io_result := IoOk | IoErr.
+
+(* what regal.Lint returned *)
+Inductive lint_outcome := LintErr | Linted (r : report).
+
+Definition lint_fn (open_res : io_result) (o : lint_outcome) (publish_res : io_result) : lint_result :=
+  match open_res with
+  | IoErr => LintFailed                 (* "failed to open output file before use" *)
+  | IoOk =>
+      match o with
+      | LintErr => LintFailed           (* "error(s) encountered while linting" *)
+      | Linted r =>
+          match publish_res with
+          | IoOk => LintDone r
+          | IoErr => LintFailed         (* Publish returned the error of a write (or of the final flush) *)
+          end
+      end
+  end.
+
+Definition run_exit (fail_level : str) (open_res : io_result) (o : lint_outcome) (publish_res : io_result) : N :=
+  exit_code fail_level (lint_fn open_res o publish_res).
+
+(* ---- the output file ----
+   [prev]: the content of the file before the run (None: no such file).
+   getWriterForOutputFile: Stat; the file exists -> OpenFile(O_RDWR|O_CREATE|O_TRUNC), otherwise
+   os.Create (which truncates too): in both cases the file is empty and the offset is 0. *)
+Definition open_truncating (prev : option str) : str := [].
+
+(* what it must not be: opening without O_TRUNC keeps the previous content *)
+Definition open_keeping (prev : option str) : str :=
+  match prev with Some s => s | None => [] end.
+
+(* write(2) of [data] at offset [off] (<= length of the file) into a file holding [content] *)
+Definition write_at (off : nat) (content data : str) : str :=
+  (firstn off content ++ data ++ skipn (off + List.length data) content)%list.
+
+(* the reporter's writes, one after the other from offset 0, amount to one write of the rendering *)
+Definition file_after (prev : option str) (rendering : str) : str :=
+  write_at 0 (open_truncating prev) rendering.
+
+Definition file_after_keeping (prev : option str) (rendering : str) : str :=
+  write_at 0 (open_keeping prev) rendering.
